@@ -603,7 +603,6 @@ type dispatcher struct {
 	calls  int64
 	gid    int64
 	maxLat int64
-	done   int32
 }
 
 const (
@@ -653,7 +652,6 @@ func runCase(res *mon.Result, st *stats17, c *ccase, scratch string) {
 	started := time.Now()
 	srv := newServer(c)
 	defer srv.close()
-	desc := map[string]interface{}{"config": c}
 	viol := func(sig string, extra map[string]interface{}, format string, a ...interface{}) {
 		w := map[string]interface{}{"config": c, "requests": srv.logExcerpt(80)}
 		for k, v := range extra {
@@ -661,7 +659,6 @@ func runCase(res *mon.Result, st *stats17, c *ccase, scratch string) {
 		}
 		res.Violate(sig, fmt.Sprintf("case %d (conc=%d blocking=%v buf=%d flushMaxNum=%d): ", c.Index, c.Concurrency, c.Blocking, c.BufSize, c.FlushMaxNum)+fmt.Sprintf(format, a...), w)
 	}
-	_ = desc
 
 	cfg, err := route.NewGrafanaNetConfig(srv.addr(), apiKey, filepath.Join(scratch, "storage-schemas.conf"), filepath.Join(scratch, "storage-aggregation.conf"))
 	if err != nil {
@@ -748,7 +745,6 @@ func runCase(res *mon.Result, st *stats17, c *ccase, scratch string) {
 					mine = mine[:len(mine)-1]
 				}
 			}
-			atomic.StoreInt32(&ds.done, 1)
 		}(d, disps[d])
 	}
 	allDone := make(chan struct{})
@@ -781,7 +777,10 @@ watch:
 			if atomic.LoadInt64(&ds.calls) != calls || atomic.LoadInt64(&ds.start) != s0 {
 				continue // it moved on
 			}
-			if !p1.parked() || !p2.parked() || !samePark(p1, p2) || (c.Blocking && srv.idleFor() < stallBound) {
+			if c.Blocking && srv.idleFor() < stallBound {
+				continue // the endpoint sees requests again: the buffer is being drained, blocking is legal
+			}
+			if !p1.parked() || !p2.parked() || !samePark(p1, p2) {
 				res.Inconclusive(fmt.Sprintf("case %d: a Dispatch call lasted > %v but the two stack samples do not show one parked frame (%s / %s)", c.Index, stallBound, p1.where(), p2.where()))
 				continue
 			}
@@ -872,7 +871,6 @@ watch:
 	}()
 	st.add("shutdown_calls", 1)
 	returned, evAtReturn := false, int64(0)
-	hung := false
 shutwait:
 	for {
 		select {
@@ -899,23 +897,19 @@ shutwait:
 		if !p1.parked() || !p2.parked() || !samePark(p1, p2) {
 			if time.Since(tCall) > 3*time.Minute {
 				res.Inconclusive(fmt.Sprintf("case %d: Shutdown has not returned after 3 minutes but the samples show no single parked frame (%s / %s)", c.Index, p1.where(), p2.where()))
-				hung = true
 				break shutwait
 			}
 			continue
 		}
-		hung = true
 		viol("shutdown-hang", map[string]interface{}{"sample1": p1, "sample2": p2, "endpoint_idle_ms": int(srv.idleFor() / time.Millisecond),
 			"accepted": accepted, "acknowledged_distinct": srv.distinctAcked()},
 			"Shutdown() has not returned %v after the call although the endpoint is healthy and saw no request for > %v; parked at %s (two samples %v apart, same frames)",
 			time.Since(tCall).Round(100*time.Millisecond), stallBound, p2.where(), sampleGap)
 		break shutwait
 	}
-	_ = hung
 
 	// ---- what got acknowledged
-	settled := quiesce()
-	_ = settled
+	quiesce()
 	srv.mu.Lock()
 	reqs := make([]*reqRec, len(srv.reqs))
 	copy(reqs, srv.reqs)
